@@ -278,6 +278,16 @@ func (fs *FS) Rename(oldname, newname string) error {
 	if err != nil {
 		return err
 	}
+	if newname != "." {
+		// the destination's parent must be an existing directory
+		newParent, err := fs.getFile(path.Dir(newname))
+		if err != nil {
+			return &hackpadfs.LinkError{Op: "rename", Old: oldname, New: newname, Err: err}
+		}
+		if !newParent.Mode().IsDir() {
+			return &hackpadfs.LinkError{Op: "rename", Old: oldname, New: newname, Err: hackpadfs.ErrNotDir}
+		}
+	}
 	if !oldInfo.IsDir() {
 		if oldname == newname {
 			return nil
